@@ -136,3 +136,16 @@ SPECS["C04"] = dict(
              params=dict(quick=dict(put=1)), witnesses=["touch-won", "done"]),
     ],
 )
+
+SPECS["C03"] = dict(
+    level="model_checking",
+    outside="content longer than 2 (quick) / 3 (thorough) bytes; more than 2 services x 1 retry; concurrent readers of one in-flight fetch; real HTTP transport (Content-Length enforcement by net/http is not modelled: the stub may declare any length); collection-level reads are covered by C08",
+    assumptions=["MD5 as uninterpreted function with collision-freeness on occurring applications", "locator is valid for the content (md5(X)+len(X))",
+                 "HTTP client stub: any of {transport error, 404, 503, 200 with arbitrary body / chunking / Content-Length / mid-stream error} per request"],
+    runs=[
+        dict(name="get", pkg="sdk/go/keepclient", harness=["keepclient/c03_get.go"], entry="GosymH_C03_get",
+             params=dict(quick=dict(maxlen=1, services=1, retries=1), thorough=dict(maxlen=2, services=2, retries=0)), witnesses=["read-ok", "read-error", "get-error"]),
+        dict(name="cache", pkg="sdk/go/keepclient", harness=["keepclient/c03_get.go"], entry="GosymH_C03_cache",
+             params=dict(quick=dict(maxlen=1), thorough=dict(maxlen=2)), witnesses=["readat-ok", "readat-error", "retry-ok"]),
+    ],
+)
